@@ -359,6 +359,10 @@ impl<Payload: for<'de> Deserialize<'de>> JWT<Payload> {
             .ok_or_else(Response::Unauthorized)?;
         let requested_signature = crate::util::base64_url_decode(signature_part)
             .map_err(|_| Response::Unauthorized())?;
+        if parts.next().is_some() {
+            // a JWS in compact serialization has exactly three parts
+            return Err(Response::Unauthorized().with_text(UNAUTHORIZED_MESSAGE))
+        }
 
         let is_correct_signature = {
             use ::sha2::{Sha256, Sha384, Sha512};
